@@ -321,6 +321,11 @@ func (w *World) ActValRedelegate(t *rapid.T) {
 func (w *World) ActSlash(t *rapid.T) {
 	v := pick(t, "validator", w.Validators)
 	frac := sdk.NewDecWithPrec(int64(rapid.SampledFrom([]int{1, 5, 33, 50}).Draw(t, "slashPct")), 2)
+	w.Slash(v, frac)
+}
+
+// Slash slashes validator v by frac at the start of a new block (see below).
+func (w *World) Slash(v sigs.Account, frac sdk.Dec) {
 	ts := w.C.TS
 	// A validator is slashed by the slashing / evidence modules in BeginBlock, and the dualstaking
 	// BeginBlocker (HandleSlashedValidators) runs later in the SAME BeginBlock (module order in
